@@ -296,6 +296,34 @@ def gen_pipe_case(rng):
     return Case(scripts, gen_sched(rng, np_, est), rng.randint(1, 2 ** 31), "pipe")
 
 
+def gen_pipe_open_case(rng):
+    """no drop / join: the run ends when nothing can run any more (a worker blocked in recv is a legitimate
+    deadlock); `waitidle ; pollif` gives the main thread the chance to serve every notification first"""
+    main = ["pnew 0"]
+    msg = 700
+    sc = []
+    for _ in range(rng.randint(1, 4)):
+        r = rng.random()
+        if r < 0.5:
+            sc.append("recv")
+        elif r < 0.9:
+            sc.append("lsend %d" % msg)
+            msg += 1
+        else:
+            sc.append("cancel")
+    if rng.random() < 0.7:
+        sc.append("recv")
+    for _ in range(rng.randint(0, 3)):
+        if rng.random() < 0.6:
+            main.append("psend 0 %d" % msg)
+            msg += 1
+        main += ["waitidle", "pollif"] if rng.random() < 0.7 else ["pollif"]
+    main += ["waitidle", "pollif"]
+    scripts = {0: main, 1: sc}
+    est = 8 * (len(main) + len(sc))
+    return Case(scripts, gen_sched(rng, 1, est), rng.randint(1, 2 ** 31), "pipe-open")
+
+
 def gen_mixed_case(rng):
     """plain wakers + a channel + a piped thread sharing one leaf word"""
     main = ["new 1", "cnew 0", "pnew 0", "new 2", "spawn", "spawn"]
@@ -331,8 +359,10 @@ def gen_case(rng, prop):
         if r < 0.85:
             return gen_chan_case(rng)
         return gen_mixed_case(rng)
-    if r < 0.85:
+    if r < 0.60:
         return gen_pipe_case(rng)
+    if r < 0.88:
+        return gen_pipe_open_case(rng)
     return gen_mixed_case(rng)
 
 
